@@ -267,4 +267,20 @@ PROPS.update({
         "level_text": "Lean 4 invariant proof over the broadcaster state machine for every history of broadcasts, polls, cancellations, replies in any order, spurious and stale wake-ups and partially read reply iterators, any number of repliers: a Ready poll returns exactly one reply per accepting connection, in connection order, each consumed from its own replier during this broadcast (never stale), only after all have replied, and never finds an empty slot; a Pending poll leaves the caller registered so that the next sub-task wake-up notifies it once; the cached lock returns the shared connection list to every clone after any history; tied to the code by running the real QueryBroadcaster/TaskSet/CachedRwLock/Output clones and the model on identical operation sequences, comparing results, per-sub-future poll counts and notifications",
         "level_note": "trusted: Lean kernel, propext/Classical.choice/Quot.sound, the differential harness, the scripted-sender hook; atomicity of task-set operations and SC epoch are modelling assumptions; PARTIAL: completion (liveness) is monitored, not proved",
     },
+    "C19": {
+        "props_module": "NexoVerif.Props.C19",
+        "model": "M-DROP (NexoVerif/Model/DropM.lean) with the switches of NexoVerif/Extracted.lean, and M-TASK",
+        "engines": [{"name": "net", "rule": NET_RULE + "; for C19 every case drops the real simulation (with its Scheduler handle, addresses and event sources) at a random point of the driver sequence - idle, deadlocked, after a panic / NoRecipient failure, with 0-2 scheduled actions still pending - on the single-threaded and on 2-8 thread executors, on a helper thread with a 20 s watchdog; measured: the drop returns without panicking, every model of the simulation is dropped exactly once (drop-counting models), the balance of message instances (created/cloned minus dropped, counting payload type) is zero after the orphan mailboxes and sinks are dropped too, the process thread count is back to its baseline, no handler runs afterwards; plus nested scenarios (a single-threaded simulation with 0-4 models created and dropped inside a handler of another one with 0-4 idle models, then the outer one dropped); the model side derives the M-DROP ownership state from the M-NET state (blocked senders and served queries become wake-on-drop edges) and runs the drop sequence with the extracted switches; runs that hit the step time-out are excluded as the property says"}],
+        "assumptions": [
+            "worker threads are joined before the cancellation phase (read from the source: dropMtJoinsThenCancelsInWorker), so nothing runs concurrently with it; the thread-locals LOCAL_WORKER / ACTIVE_TASKS are represented by parameters of the model",
+            "models, undelivered messages and mailboxes are owned by task futures (Rust ownership): dropping every future exactly once drops each of them exactly once; the harness measures this on the real code",
+            "per-task release (future dropped once, memory freed once when the last handle goes) is the M-TASK theorem of C13, with SC atomics",
+            "the switches are extracted by pattern from mt_executor.rs / st_executor.rs; extract.py fails closed (a construct it does not recognise yields false, which breaks source_follows_the_drop_protocol)",
+        ],
+        "trusted_base": ["M-DROP is hand-written from executor/mt_executor.rs (run_local_worker tail, Executor::drop, CancellableFuture::drop) and executor/st_executor.rs (ExecutorInner::drop); tied by the extracted switches and by the drop measurements of the `net` engine", "extract/extract.py"],
+        "explanation": "theorems source_follows_the_drop_protocol, drop_releases_every_future_exactly_once, nothing_runs_and_nothing_is_rescheduled_afterwards, other_executors_are_left_alone, forgetting_the_fast_slot_panics, not_unsetting_active_tasks_leaks_the_outer_task, exCycle_wf, a_task_without_handles_is_gone",
+        "level_text": "Lean 4 proof over the ownership model of the executors' drop sequence for any number of tasks, any placement of their Runnables, any wake-on-drop relation between them (tasks waking one another while being dropped): every future is dropped exactly once, no cancel token or Runnable is left, nothing is woken outside a worker context, nothing can be rescheduled afterwards, tasks of other (enclosing) executors are untouched; each switch of the protocol (hand-over of a dying worker's fast slot, ACTIVE_TASKS unset) is shown necessary by a counterexample and is read from the source on every run; tied to the code by dropping real simulations at random points of driver sequences (idle, deadlocked, failed, scheduled actions pending, nested) on 1-8 threads and measuring drop counts, message-instance balance, thread count and post-drop activity",
+        "level_note": NET_NOTE + "; the model's prediction for a drop is derived from the M-NET state but is the same for every well-formed state (that is the theorem), so the tie on the outcome is a property monitor on the real code rather than a differential comparison; the tie on the mechanism is the extracted switches",
+        "technique": "Lean 4 proof over hand-written model with switches extracted from the source + drop measurements on the real code",
+    },
 })
